@@ -328,6 +328,17 @@ def run_verus_unit(unit, repo, work, seed, tier, features=None, tag="", rlimit=3
                 res["vacuity"].append(dict(function=key, verdict=verdict))
                 if verdict != "reachable":
                     res["undecided"].append(f"vacuity probe for {key}: {verdict} {info}")
+    # thorough tier: a deductive proof already covers every input; what remains to explore is the solver -- re-discharge every
+    # obligation of the unit under three more random seeds and a doubled resource limit (recorded as stability evidence; a seed
+    # that fails while the primary run passed is reported as a note, never as a violation)
+    res["stability"] = []
+    if tier == "thorough" and not res["failures"] and not res["undecided"]:
+        def rerun(sd):
+            _, summ, dg, _, w, _ = run_verus(rs, sd, rlimit * 2)
+            f2, u2 = classify(mp, gen_text, dg)
+            return dict(seed=sd, ok=(not f2 and not u2 and bool(summ)), wall_s=round(w, 2))
+        with cf.ThreadPoolExecutor(max_workers=3) as ex:
+            res["stability"] = list(ex.map(rerun, [seed + 1, seed + 7, 42 + seed]))
     res["wall"] = time.time() - t0
     return res
 
@@ -439,6 +450,9 @@ def main(argv):
             undecided.append(f"[{r['unit']}] {m}")
         for m in r.get("beyond_notes", []):
             notes.append(f"[{r['unit']}{r['tag']}] {m}")
+        for st in r.get("stability", []):
+            if not st["ok"]:
+                notes.append(f"[{r['unit']}{r['tag']}] solver seed {st['seed']} did not re-discharge every obligation (instability, not a violation)")
         mp = r["map"]
         if not mp:
             continue
@@ -586,6 +600,7 @@ def main(argv):
             samples=samples or [dict(note="no obligations")],
             not_decided=pconf.get("not_decided", []),
             shape_checks=[s for r in results if r["map"] for s in r["map"]["shape_checks"]],
+            solver_stability=[dict(unit=r["unit"] + r["tag"], **st) for r in results for st in r.get("stability", [])],
             undecided=undecided, notes=notes,
             known_findings=[f"{k['unit']}/{k['function']}/{k['clause']}" for k in known_hits],
             replays=replay_paths,
